@@ -14,7 +14,15 @@ cli      the real bin/martinize2 entry() in a freshly forked process, in a scrat
 crash    the same runs with the fault proxies of c07.Faults installed in the command-line process: at the gate the process
          forks one child per (k, exception) - write() dies before the (k+1)-th primitive with a BaseException, a
          KeyboardInterrupt or an OSError(ENOSPC) - for every k up to the number of primitives of that run; the directory
-         each child leaves behind is judged (PreExistingSafe, and the model's state after k primitives).
+         each child leaves behind is judged: PreExistingSafe (required), every destination in a state its finalisation
+         passes through, nothing else new or changed; whether it is EXACTLY the model's directory after k primitives is
+         counted and reported.  With sc['variants'] the same pending table is finalised (all crash points again) against
+         other directories - files and backups that appeared or vanished while the run was in progress.
+         A forked child leaves through os._exit: what the interpreter does to the writer at a real exit
+         (DeferredFileWriter.__del__ -> close()) is called explicitly before the directory and the directory of temporary
+         files are recorded; real exits are observed on the subprocesses of c07.gate_start.
+         Every run is also interrupted (KeyboardInterrupt in a forked copy) just before the gate: nothing touched, no
+         temporary file left.
 lib      histories on the process-wide singleton through all its access routes (DeferredFileWriter().open,
          file_writer.deferred_open, a library module's deferred_open, a library writer): consecutive runs in one process
          (backups .1, .2, ...), discard followed by new opens, "w" and "a" on one path (either reading admitted), paths that
@@ -315,7 +323,7 @@ def predicted_outputs(sc):
     norm = lambda p: os.path.normpath(p.replace('{W}/', ''))
     names = [norm(x), norm(o)] + ['molecule_%d.itp' % i for i in range(n_itps(sc))]
     if '-go' in sc['opts']:
-        names += ['go_atomtypes.itp', 'go_nbparams.itp']
+        names += ['molecule.itp', 'go_atomtypes.itp', 'go_nbparams.itp']      # the Go model names its single molecule type 'molecule'
         if '-go-write-file' in sc['opts']:
             names.append(sc['opts'][sc['opts'].index('-go-write-file') + 1])
     return list(dict.fromkeys(names))
@@ -406,7 +414,7 @@ def cli_child(sc, root, resfile):
     rec = Recorder(work)
     mod = cli_c03.load_cli()
     rec.install()
-    state = {'role': None, 'wrote': False, 'prims': [], 'counts': None, 'above': 0, 'gate_snap': None, 'crashes': [], 'variants': [],
+    state = {'role': None, 'wrote': False, 'prims': [], 'counts': None, 'above': 0, 'gate_snap': None, 'crashes': [], 'variants': [], 'interrupt': None,
              'same_singleton': mod.DeferredFileWriter() is fw.DeferredFileWriter()
              and getattr(fw.DeferredFileWriter().open, '__self__', None) is fw.DeferredFileWriter()}
     pre = tree(work)
@@ -418,6 +426,21 @@ def cli_child(sc, root, resfile):
             state['counts'] = {str(t): int(n) for t, n in counter.counts.get(30, {}).items() if n}
             state['above'] = int(sum(n for lvl, d in counter.counts.items() if lvl > 30 for n in d.values()))
             state['gate_snap'] = tree(work)
+            # Ctrl-C just before the gate, in a forked copy of the process: nothing may have been touched, no temporary file stays
+            out = os.path.join(resd, 'interrupt.json')
+            saved_tmp = tree(tmpd)              # the copy shares the temporary files with this process: put them back afterwards
+            pid = os.fork()
+            if pid == 0:
+                state['role'] = ('interrupt', 'kbint', out)
+                raise KeyboardInterrupt()
+            os.waitpid(pid, 0)
+            restore(work, state['gate_snap'])
+            restore(tmpd, saved_tmp)
+            try:
+                with open(out) as fh:
+                    state['interrupt'] = json.load(fh)
+            except (OSError, ValueError):
+                state['interrupt'] = {'lost': True}
         return real_count(counter, specs)
     mod.ignore_warnings_and_count = count
 
@@ -523,7 +546,7 @@ def cli_child(sc, root, resfile):
         steps.append({'op': 'open', 'd': op['d'], 'mode': op['mode'], 'data': b''.join(op['chunks']), 'snap': None})
     if steps:
         steps[-1]['snap'] = state['gate_snap']
-    lost = [c for c in state['crashes'] if c.get('lost')] + [c for v in state['variants'] for c in v['crashes'] if c.get('lost')] + \
+    lost = ([state['interrupt']] if (state['interrupt'] or {}).get('lost') else []) + [c for c in state['crashes'] if c.get('lost')] + [c for v in state['variants'] for c in v['crashes'] if c.get('lost')] + \
         [v for v in state['variants'] if v['complete'] is None]
     if lost:
         meta['err'] = 'crash children without a report: %s' % lost
@@ -547,6 +570,9 @@ def cli_child(sc, root, resfile):
         vsteps = [dict(st, snap=None) for st in steps]
         check_tokenisable(v['pre'], vsteps)
         extra_events.append(EventBuilder().build(v['pre'], vsteps + [vgate], dests, exempt))
+    if state['interrupt']:
+        isteps = [dict(st) for st in steps] + [{'op': 'discard', 'snap': _s2b(state['interrupt']['snap']), 'tmpleft': state['interrupt']['tmpleft']}]
+        extra_events.append(EventBuilder().build(pre, isteps, dests, exempt))
     meta['ndest'] = len(dests)
     meta['npre_dest'] = sum(1 for d in dests if d in pre)
     meta['dests'] = sorted(dests)
@@ -927,16 +953,23 @@ def scenario_class(sc, meta, facts):
             out.append('cli:refused-with-debug-dumps')
         if facts['backups'] > 0:
             out.append('cli:backup-made')
+        if meta.get('ndest') and meta.get('npre_dest') == meta.get('ndest'):
+            out.append('cli:every-destination-pre-existing')
+        elif sc['pre'] in ('files', 'b1', 'gap', 'hole1'):
+            out.append('cli:HARNESS-predicted-output-names-incomplete')
         if facts['highslot'] >= 2:
             out.append('cli:backup-number-above-1')
         if facts['crashes'] > 0:
             out.append('cli:crash-points')
         if facts['reopen'] > 0:
             out.append('cli:one-path-opened-twice')
-        if len(sc['chains']) > 1:
+        dests = meta.get('dests', [])
+        if sum(1 for d in dests if d.startswith('molecule_') and d.endswith('.itp')) > 1:
             out.append('cli:several-itps')
-        if '-go' in sc['opts']:
+        if any(d.startswith('go_') for d in dests):
             out.append('cli:go-files')
+        if any(d.endswith('.out') for d in dests):
+            out.append('cli:contact-map-file')
     else:
         out.append('lib:' + sc['name'].rstrip('0123456789-'))
         if facts['finalised'] >= 2:
@@ -968,7 +1001,7 @@ def worker(idx, scenarios, scratch, outfile):
         results = []
         for j, sc in enumerate(scenarios):
             root = os.path.join(scratch, 'w%d_%d' % (idx, j))
-            r = _run_child(sc['fam'], sc, root, 420)
+            r = _run_child(sc['fam'], sc, root, 900)
             shutil.rmtree(root, ignore_errors=True)
             results.append((sc, r))
         judged = []
@@ -996,7 +1029,9 @@ def worker(idx, scenarios, scratch, outfile):
                     summary.setdefault('inexact', []).append({'scenario': sc, 'facts': facts})
                 if not r['meta'].get('same_singleton', True):
                     summary['not_singleton'] += 1
-                if variant:
+                if variant and facts['discards']:
+                    summary['classes']['cli:interrupted-before-the-gate'] += 1
+                elif variant:
                     summary['classes']['cli:directory-changed-during-the-run'] += 1
                     if facts['highslot'] >= 2:
                         summary['classes']['cli:backup-number-above-1'] += 1
@@ -1090,9 +1125,9 @@ def _worker_main(idx, share, scratch, out):
         os._exit(0)
 
 
-REQUIRED_CLASSES = ['cli:directory-changed-during-the-run', 'cli:refused', 'cli:waived', 'cli:clean', 'cli:refused-with-pre-existing-destinations', 'cli:refused-with-debug-dumps',
-                    'cli:backup-made', 'cli:backup-number-above-1', 'cli:crash-points', 'cli:one-path-opened-twice', 'cli:several-itps',
-                    'cli:go-files', 'cli-mw:number', 'cli-mw:type', 'cli-mw:typecount', 'cli-mw:left-typeonly', 'cli-mw:left-typecount',
+REQUIRED_CLASSES = ['cli:directory-changed-during-the-run', 'cli:interrupted-before-the-gate', 'cli:refused', 'cli:waived', 'cli:clean', 'cli:refused-with-pre-existing-destinations', 'cli:refused-with-debug-dumps',
+                    'cli:backup-made', 'cli:every-destination-pre-existing', 'cli:backup-number-above-1', 'cli:crash-points', 'cli:one-path-opened-twice', 'cli:several-itps',
+                    'cli:go-files', 'cli:contact-map-file', 'cli-mw:number', 'cli-mw:type', 'cli-mw:typecount', 'cli-mw:left-typeonly', 'cli-mw:left-typecount',
                     'cli-paths:abs', 'cli-paths:sub', 'cli-paths:same', 'cli-paths:xin', 'cli-paths:dots',
                     'lib:consecutive-finalisations', 'lib:both-modes-on-one-path', 'lib:unwritable-destination', 'lib:crash',
                     'lib:discard', 'lib:append', 'lib:backup-number-above-1', 'lib:spellings', 'lib:chdir', 'lib:write-onto-directory']
@@ -1214,6 +1249,8 @@ def replay(sc, scratch):
     if not r.get('event'):
         print(r['meta'].get('log', '')[-1500:])
         return 2
-    res, verdicts = judge_events([r['event']], os.path.join(scratch, 'judge'))
-    print('verdict of DeferredWriterJudge:', verdicts[0])
-    return 0 if verdicts[0]['v'] == 'ok' else 1
+    events = [r['event']] + list(r.get('more_events', ()))
+    res, verdicts = judge_events(events, os.path.join(scratch, 'judge'))
+    for i, v in enumerate(verdicts):
+        print('verdict of DeferredWriterJudge (%s):' % ('the run' if i == 0 else 'directory variant %d' % i), v)
+    return 0 if all(v['v'] == 'ok' for v in verdicts) else 1
